@@ -28,4 +28,7 @@ def jobs(tier):
                      functions=["MatrixLUInversion"], bound="%dx%d input" % (m, m), clause="LU inverse wrapper: packed array in bounds, LAPACK preconditions, result shape"))
         J.append(Job("EVectEval@n=%d" % m, "C12/lapack.c", entry="h_EVectEval", srcs=S, kind="bounded", defines={"VC_M": m}, unwind=m * m + 4,
                      functions=["EVectEval"], bound="%dx%d input" % (m, m), clause="eigen wrapper: packed arrays in bounds, LAPACK preconditions, result shapes"))
+    J.append(Job("MatrixInversion_pivot", "C12/lapack.c", entry="h_MatrixInversion_pivot", srcs=S, kind="bounded", defines={}, unwind=8, functions=["MatrixInversion"], timeout=900,
+                 bound="2x2 matrices [[0,b],[c,d]], b,c in [1,2], d in [-1,1] (symbolic)",
+                 clause="Gauss-Jordan inverse of a non-singular matrix with a zero leading entry is finite (row exchange needed)"))
     return J
